@@ -1360,7 +1360,18 @@ csurv_task(void *a)
 					}
 			}
 			UAio u;
+			uint64_t abs_at = 0; // the receive's own limit as an absolute time, when it was given as one
 			nng_aio_set_timeout(u.aio, tmo < 0 ? NNG_DURATION_INFINITE : (nng_duration) tmo);
+			if (!w->rapid && W(0, 5) == 5) {
+				// the receive's own limit given as an absolute expiration (nng_aio_set_expire) that lies
+				// around or beyond the survey's deadline; a short relative timeout is left in place
+				int abs_ms = (int) W(c->st_ms / 2, 4 * c->st_ms);
+				nng_aio_set_timeout(u.aio, (nng_duration) W(1, 20));
+				abs_at = (uint64_t) nng_clock() + (uint64_t) abs_ms;
+				nng_aio_set_expire(u.aio, (nng_time) abs_at);
+				tmo = abs_ms;
+				sim_probe("c07_recv_absolute_expiration");
+			}
 			uint64_t inv_ms = sim_now_ms();
 			u.arm("surv_recv");
 			if (c->is_sock)
@@ -1433,7 +1444,7 @@ csurv_task(void *a)
 					    "ctx %d: receive invoked after the deadline failed NNG_ETIMEDOUT, not NNG_ESTATE", c->idx);
 				uint64_t bound = d_lo;
 				if (tmo >= 0)
-					bound = std::min(bound, inv_ms + (uint64_t) tmo);
+					bound = std::min(bound, abs_at != 0 ? abs_at : inv_ms + (uint64_t) tmo);
 				if (done_ms < bound)
 					VIOL("recv_timeout_before_deadline",
 					    "ctx %d: receive (timeout %d, invoked %llu ms) timed out at %llu ms, before the deadline "
